@@ -457,4 +457,211 @@ theorem prev_rel {root : Tree (K × V)} {c : Cursor (K × V)} {oi : Option Nat}
 
 end
 
+/-! ## one step -/
+
+theorem T_remove_false (c : α → α → Ordering) (t t' : T α) (k : α) (h : t.remove c k = some (t', false)) :
+    t'.root = t.root := by
+  unfold T.remove at h
+  simp only at h
+  split at h
+  · split at h
+    · split at h <;> simp at h
+    · simp at h
+  · rename_i hp
+    simp only [Option.some.injEq, Prod.mk.injEq, and_true] at h
+    rw [← h]
+    exact remove_false_id c k t.root (by simpa using hp)
+
+section
+variable {K V : Type} (cmp : K → K → Ordering) [Std.TransCmp cmp] [Inhabited V]
+
+theorem getOK_eq {m : Omap.Map K V} {l : Option (List (K × V))} (h : RelMap cmp m l) (k : K) :
+    Omap.getOK cmp m k = AssocRef.lookup cmp k (l.getD []) := by
+  rcases h with ⟨rfl, rfl⟩ | ⟨t, rfl, ⟨ho, _⟩, rfl⟩
+  · rfl
+  · simp only [Omap.getOK, T.get, getC_spec (Omap.kvCmp cmp) (k, default) t.root ho, lookup_eq, Option.getD_some]
+    cases List.find? (fun y => Omap.kvCmp cmp (k, (default : V)) y == .eq) t.root.toList <;> rfl
+
+theorem len_eq {m : Omap.Map K V} {l : Option (List (K × V))} (h : RelMap cmp m l) :
+    Omap.len m = (l.getD []).length := by
+  rcases h with ⟨rfl, rfl⟩ | ⟨t, rfl, ⟨_, hs⟩, rfl⟩
+  · rfl
+  · simpa [Omap.len, T.len] using hs
+
+theorem keys_eq {m : Omap.Map K V} {l : Option (List (K × V))} (h : RelMap cmp m l) :
+    Omap.keys m = (l.getD []).map (·.1) := by
+  rcases h with ⟨rfl, rfl⟩ | ⟨t, rfl, ⟨_, hs⟩, rfl⟩
+  · rfl
+  · simp only [Omap.keys, T.len, T.inorder, inorderF_collect_none, Option.getD_some, List.append_nil,
+      List.reverse_reverse]
+    split
+    · rename_i h0
+      have : t.root.toList.length = 0 := by rw [← hs]; simpa using h0
+      rw [List.length_eq_zero_iff.mp this]; rfl
+    · rfl
+
+theorem entries_eq {m : Omap.Map K V} {l : Option (List (K × V))} (h : RelMap cmp m l) :
+    Omap.entries m = l.getD [] := by
+  rcases h with ⟨rfl, rfl⟩ | ⟨t, rfl, _, rfl⟩
+  · rfl
+  · simp only [Omap.entries, Omap.first, Option.getD_some]
+    rcases first_spec t.root with ⟨hn, hf⟩ | ⟨p, hf, hw, hr, hb⟩
+    · rw [hf, walk_none, hn]; rfl
+    · obtain ⟨l', x, r', hc⟩ := isNil_eq_false.mp hw
+      have hz := Pos.zipper p hc
+      rw [hb, hr] at hz
+      rw [hf, walk_spec _ p hw x (key?_some hc), hz]; rfl
+      have := size_eq_length t.root
+      rw [hz] at this
+      simp at this; omega
+
+theorem step_refines (F : TreeFacts (Omap.kvCmp (V := V) cmp)) (s : Omap.State K V) (a : AssocRef.S K V)
+    (h : Rel cmp s a) (op : Omap.Op K V) :
+    (Omap.step cmp s op).2 = (AssocRef.step cmp a op).2 ∧
+      Rel cmp (Omap.step cmp s op).1 (AssocRef.step cmp a op).1 := by
+  obtain ⟨m, mi⟩ := s
+  obtain ⟨l, si⟩ := a
+  obtain ⟨hm, hi⟩ := h
+  simp only at hm hi
+  have hlist := relMap_list cmp hm
+  cases op with
+  | set k v =>
+    rcases hm with ⟨rfl, rfl⟩ | ⟨t, rfl, htw, rfl⟩
+    · constructor
+      · rfl
+      · exact ⟨Or.inl ⟨rfl, rfl⟩, hi⟩
+    · obtain ⟨t', h1, h2, h3⟩ := F.replace t (k, v) htw
+      rw [insert_eq] at h1 h3
+      simp only [Omap.step, Omap.set, h1, AssocRef.step]
+      exact ⟨trivial, ⟨Or.inr ⟨t', rfl, h2, by rw [h3]⟩, relIts_stale hi⟩⟩
+  | delete k =>
+    rcases hm with ⟨rfl, rfl⟩ | ⟨t, rfl, htw, rfl⟩
+    · constructor
+      · rfl
+      · exact ⟨Or.inl ⟨rfl, rfl⟩, hi⟩
+    · obtain ⟨t', h1, h2, h3⟩ := F.remove t (k, default) htw
+      rw [erase_eq] at h1 h3
+      simp only [Omap.step, Omap.delete, h1, AssocRef.step]
+      refine ⟨trivial, ⟨Or.inr ⟨t', rfl, h2, by rw [h3]⟩, ?_⟩⟩
+      cases hb : (AssocRef.erase cmp k t.root.toList).2 with
+      | true => simpa using relIts_stale hi
+      | false =>
+        rw [hb] at h1
+        have hroot := T_remove_false _ t t' _ h1
+        simp only [Bool.false_eq_true, if_false, rootOf, hroot]
+        exact hi
+  | clear =>
+    rcases hm with ⟨rfl, rfl⟩ | ⟨t, rfl, htw, rfl⟩
+    · constructor
+      · rfl
+      · exact ⟨Or.inl ⟨rfl, rfl⟩, hi⟩
+    · simp only [Omap.step, Omap.clear, AssocRef.step]
+      refine ⟨trivial, ⟨Or.inr ⟨t.clear, rfl, ⟨List.Pairwise.nil, rfl⟩, rfl⟩, relIts_stale hi⟩⟩
+  | get k =>
+    refine ⟨?_, ⟨hm, hi⟩⟩
+    simp only [Omap.step, AssocRef.step, Omap.get, getOK_eq cmp hm, AssocRef.S.list]
+  | getOK k =>
+    refine ⟨?_, ⟨hm, hi⟩⟩
+    simp only [Omap.step, AssocRef.step, getOK_eq cmp hm, AssocRef.S.list]
+  | len =>
+    refine ⟨?_, ⟨hm, hi⟩⟩
+    simp only [Omap.step, AssocRef.step, len_eq cmp hm, AssocRef.S.list]
+  | keys =>
+    refine ⟨?_, ⟨hm, hi⟩⟩
+    simp only [Omap.step, AssocRef.step, keys_eq cmp hm, AssocRef.S.list]
+  | string =>
+    refine ⟨?_, ⟨hm, hi⟩⟩
+    simp only [Omap.step, AssocRef.step, entries_eq cmp hm, AssocRef.S.list]
+  | first i =>
+    have hr := first_rel cmp hm
+    refine ⟨?_, ⟨hm, relIts_set hi i hr⟩⟩
+    simp only [Omap.step, AssocRef.step, AssocRef.S.list, relIt_read hr, hlist]
+  | last i =>
+    have hr := last_rel cmp hm
+    refine ⟨?_, ⟨hm, relIts_set hi i hr⟩⟩
+    simp only [Omap.step, AssocRef.step, AssocRef.S.list, relIt_read hr, hlist]
+  | seek i k =>
+    have hr := seek_rel cmp hm k
+    refine ⟨?_, ⟨hm, relIts_set hi i hr⟩⟩
+    simp only [Omap.step, AssocRef.step, AssocRef.S.list, relIt_read hr, hlist]
+  | itSeek i k =>
+    have hr := seek_rel cmp hm k
+    have hii := hi i
+    revert hii
+    simp only [Omap.step, AssocRef.step, AssocRef.S.list]
+    generalize Regs.get mi i = x
+    generalize Regs.get si i = y
+    intro hii
+    cases hii with
+    | none => exact ⟨rfl, ⟨hm, hi⟩⟩
+    | some _ =>
+      refine ⟨?_, ⟨hm, relIts_set hi i hr⟩⟩
+      simp only [relIt_read hr, hlist]
+  | itNext i =>
+    have hii := hi i
+    revert hii
+    simp only [Omap.step, AssocRef.step, AssocRef.S.list]
+    generalize Regs.get mi i = x
+    generalize Regs.get si i = y
+    intro hii
+    cases hii with
+    | none => exact ⟨rfl, ⟨hm, hi⟩⟩
+    | @some x y hxy =>
+      cases x with
+      | stale => cases hxy; exact ⟨rfl, ⟨hm, hi⟩⟩
+      | live c =>
+        cases y with
+        | stale => cases hxy
+        | «at» oi =>
+          have hr := next_rel hxy
+          rw [← hlist] at hr
+          refine ⟨?_, ⟨hm, relIts_set hi i hr⟩⟩
+          simp only [relIt_read hr, hlist]
+  | itPrev i =>
+    have hii := hi i
+    revert hii
+    simp only [Omap.step, AssocRef.step, AssocRef.S.list]
+    generalize Regs.get mi i = x
+    generalize Regs.get si i = y
+    intro hii
+    cases hii with
+    | none => exact ⟨rfl, ⟨hm, hi⟩⟩
+    | @some x y hxy =>
+      cases x with
+      | stale => cases hxy; exact ⟨rfl, ⟨hm, hi⟩⟩
+      | live c =>
+        cases y with
+        | stale => cases hxy
+        | «at» oi =>
+          have hr := prev_rel hxy
+          refine ⟨?_, ⟨hm, relIts_set hi i hr⟩⟩
+          simp only [relIt_read hr, hlist]
+  | itRead i =>
+    have hii := hi i
+    revert hii
+    simp only [Omap.step, AssocRef.step, AssocRef.S.list]
+    generalize Regs.get mi i = x
+    generalize Regs.get si i = y
+    intro hii
+    cases hii with
+    | none => exact ⟨rfl, ⟨hm, hi⟩⟩
+    | @some x y hxy =>
+      cases x with
+      | stale => cases hxy; exact ⟨rfl, ⟨hm, hi⟩⟩
+      | live c =>
+        cases y with
+        | stale => cases hxy
+        | «at» oi => exact ⟨by simp only [Omap.readIt, relIt_read hxy, hlist], ⟨hm, hi⟩⟩
+
+theorem run_refines (F : TreeFacts (Omap.kvCmp (V := V) cmp)) (s : Omap.State K V) (a : AssocRef.S K V)
+    (h : Rel cmp s a) (ops : List (Omap.Op K V)) : Omap.run cmp s ops = AssocRef.run cmp a ops := by
+  induction ops generalizing s a with
+  | nil => rfl
+  | cons op ops ih =>
+    obtain ⟨h1, h2⟩ := step_refines cmp F s a h op
+    simp only [Omap.run, AssocRef.run, h1]
+    rw [ih _ _ h2]
+
+end
+
 end MdsVerif.Proofs.Omap
